@@ -167,14 +167,32 @@ Proof.
 Qed.
 
 Lemma handle_v2_pred : forall symbols ss,
-  pred_ok (CV2 symbols ss false (fst (handle_v2 symbols ss)) (snd (handle_v2 symbols ss))) = true.
+  req_pred_ok (CV2 symbols ss false (fst (handle_v2 symbols ss)) (snd (handle_v2 symbols ss))) = true.
 Proof.
   intros symbols ss. unfold handle_v2. pose proof (translate_spec symbols ss) as S.
-  destruct (translate symbols ss) as [out|]; cbn [pred_ok fst snd negb andb].
+  destruct (translate symbols ss) as [out|]; cbn [req_pred_ok fst snd negb andb].
   - destruct S as [Hr ->]. rewrite Hr. cbn [Z.eqb Pos.eqb andb].
     apply (list_eqb_refl _ v1series_eqb v1series_eqb_refl).
   - rewrite S. pose proof bad_ref_status_is_client_error as [H1 H2].
     apply Z.leb_le in H1. apply Z.ltb_lt in H2. rewrite H1, H2. reflexivity.
+Qed.
+
+(* ---- histories: the handler is stateless across v2 requests ---- *)
+Lemma v2_path_is_stateless : v2_path_stateless = true.
+Proof. vm_compute. reflexivity. Qed.
+
+Lemma history_is_pointwise : forall pre r post,
+  nth (List.length pre) (handle_history (pre ++ r :: post)) (0, []) = handle_v2 (fst r) (snd r).
+Proof.
+  intros pre r post. unfold handle_history. rewrite map_app. cbn [map].
+  rewrite app_nth2 by (rewrite map_length; lia). rewrite map_length, Nat.sub_diag. reflexivity.
+Qed.
+
+Lemma history_pred : forall reqs,
+  pred_ok (CHist (map (fun r => CV2 (fst r) (snd r) false (fst (handle_v2 (fst r) (snd r))) (snd (handle_v2 (fst r) (snd r)))) reqs)) = true.
+Proof.
+  intro reqs. cbn [pred_ok]. rewrite forallb_forall. intros c Hin. apply in_map_iff in Hin as [r [<- _]].
+  apply handle_v2_pred.
 Qed.
 
 (* ---- the lookup as it was before the repair: an unchecked slice index.
